@@ -42,7 +42,7 @@ type c05Param struct {
 	Pre  map[string]interface{} `json:"pre,omitempty"`
 }
 
-var c05Kinds = []string{"nil", "tagged", "tagged_ptr", "nested", "ctx_ptr", "ctx_ptr_nil", "ctx_val", "bac", "bac_ptr", "bac_ptr_nil", "int", "string", "map"}
+var c05Kinds = []string{"nil", "tagged", "tagged_ptr", "nested", "ctx_ptr", "ctx_ptr_nil", "ctx_val", "bac", "bac_ptr", "bac_ptr_nil", "int", "string", "map", "anon_ab", "anon_fba", "local_1", "local_2"}
 
 var c05SysKeys = map[string]bool{"action-start-time": true, "sys::prepare": true, "sys::commit": true, "sys::rollback": true, "actionName": true, "host-name": true}
 
@@ -68,6 +68,14 @@ func (p *c05Param) expected() map[string]interface{} {
 		return map[string]interface{}{"a": p.A}
 	case "ctx_val":
 		return map[string]interface{}{"b": p.B}
+	case "anon_ab":
+		return map[string]interface{}{"a": p.A, "b": p.B}
+	case "anon_fba":
+		return map[string]interface{}{"f": p.F, "note": p.B, "amount": p.A}
+	case "local_1":
+		return map[string]interface{}{"amount": p.A, "target": p.B}
+	case "local_2":
+		return map[string]interface{}{"memo": p.B, "flag": p.F, "account": p.A}
 	}
 	return map[string]interface{}{}
 }
@@ -113,7 +121,7 @@ type c05Call struct {
 }
 
 func runC05(r *vc.Run, replay string) {
-	r.Rule = "cases = global transactions with 1..3 Prepare calls over 3 registered actions x 13 parameter shapes with generated values x try outcome {ok, error, false, panic} x registration {granted, refused, unanswered} x business outcome {commit, rollback} x phase-two sequence {one request, 2-3 repeats, unknown resource, empty / non-JSON / non-object application data, commit followed by rollback} x user phase-two outcome {ok, error then ok, false, panic}; verdicts from the coordinator's frame log, synchronous marks of the user methods and the responses: one TCC BranchRegister (resource = action name, application data == model of the tagged parameters + system keys) before try starts; no try after a failed registration; each phase-two request runs the matching method exactly once with the same xid, branch id and a JSON-equivalent action context; Committed/Rollbacked iff the user method returned no error; unknown resources and unreadable application data run no user code, report no success and do not stop the client; distinct_nontrivial = distinct (parameter kinds, try, registration, outcome, phase-two sequence, script) signatures"
+	r.Rule = "cases = global transactions with 1..3 Prepare calls over 3 registered actions x 17 parameter shapes (named, anonymous and function-local struct types that share a name, pointers, nested values, caller-supplied contexts, non-structs) with generated values x try outcome {ok, error, false, panic} x registration {granted, refused, unanswered} x business outcome {commit, rollback} x phase-two sequence {one request, 2-3 repeats, unknown resource, empty / non-JSON / non-object application data, commit followed by rollback} x user phase-two outcome {ok, error then ok, false, panic}; verdicts from the coordinator's frame log, synchronous marks of the user methods and the responses: one TCC BranchRegister (resource = action name, application data == model of the tagged parameters + system keys) before try starts; no try after a failed registration; each phase-two request runs the matching method exactly once with the same xid, branch id and a JSON-equivalent action context; Committed/Rollbacked iff the user method returned no error; unknown resources and unreadable application data run no user code, report no success and do not stop the client; distinct_nontrivial = distinct (parameter kinds, try, registration, outcome, phase-two sequence, script) signatures"
 	r.Assumptions = []string{"a request whose user method failed may stay unanswered (the coordinator retries) or carry a retryable-failed status; both count as 'not committed/rollbacked'", "the action context of phase two is compared with the application data the coordinator received at registration (what was captured at prepare)"}
 	n := 260
 	if r.Tier == "thorough" {
